@@ -110,7 +110,7 @@ func (r *Run) bindAtom(fn *ssa.Function, a RuleAtom) []string {
 	for _, k := range keysOf(found) {
 		ci := found[k]
 		if a.OrdA != "" {
-			if ci.Kind == "ord" && (glob(a.OrdA, ci.A) && glob(a.OrdB, ci.B) || glob(a.OrdA, ci.B) && glob(a.OrdB, ci.A)) {
+			if ci.Kind == "ord" && (anyGlob(a.OrdA, ci.A) && anyGlob(a.OrdB, ci.B) || anyGlob(a.OrdA, ci.B) && anyGlob(a.OrdB, ci.A)) {
 				out = append(out, k)
 			}
 		} else if glob(a.Pat, k) {
@@ -281,6 +281,8 @@ func (r *Run) CheckWindow(w Window) *ssa.BasicBlock {
 			return "t" + o + b
 		}
 		label := lab(pS, oS, "start") + "," + lab(pL, oL, "limit")
+		// a verdict held in a boolean temporary reaches its test as a φ of a block already left
+		reach = r.WalkRefined(fn, s, entry, nil, reach)
 		in, out, note := w.Outcome(val, reach, entry)
 		n++
 		r.Check(key+"["+label+"]", in == want && out == !want, where,
@@ -516,6 +518,18 @@ func (r *Run) evalUnder(v ssa.Value, s Sigma, blk *ssa.BasicBlock, pred int, fro
 		}
 		return res
 	case *ssa.BinOp:
+		if (v.Op == token.EQL || v.Op == token.NEQ) && (isNilConst(v.X) || isNilConst(v.Y)) {
+			x := v.X
+			if isNilConst(x) {
+				x = v.Y
+			}
+			if t := r.nilUnder(x, s, blk, pred, from, prev, depth+1); t != U {
+				if v.Op == token.NEQ {
+					return t.Not()
+				}
+				return t
+			}
+		}
 		if v.Op == token.EQL || v.Op == token.NEQ {
 			if bt, ok := v.X.Type().Underlying().(*types.Basic); ok && bt.Info()&types.IsBoolean != 0 {
 				a := r.evalUnder(v.X, s, blk, pred, from, prev, depth+1)
@@ -658,22 +672,31 @@ func (r *Run) ExpectPointee(fn *ssa.Function, key, target, valGlob string, min i
 		add(st)
 	}
 	// (b) stores into the allocations whose address is put into the field
+	// (a pointer that arrives through φ-nodes — a helper handing back "nil or the address of
+	// the converted value" — is one of the φ's inputs: each must be nil or a local allocation)
 	for _, ps := range r.StoresTo(fn, "&("+target+")") {
-		if isNilConst(ps.Val) {
-			continue
+		ptrs, ok := wPhiLeaves(ps.Val)
+		for _, p := range ptrs {
+			if isNilConst(p) {
+				continue
+			}
+			a, isAlloc := p.(*ssa.Alloc)
+			if !isAlloc {
+				ok = false
+				break
+			}
+			eachInstr(fn, func(in ssa.Instruction) {
+				if st, ok := in.(*ssa.Store); ok && st != ps && baseAlloc(st.Addr) == a {
+					if _, isLoad := st.Addr.(*ssa.UnOp); !isLoad {
+						add(st)
+					}
+				}
+			})
 		}
-		a, ok := ps.Val.(*ssa.Alloc)
 		if !ok {
 			r.Fail(key, r.Where(ps), fmt.Sprintf("undecided: %s <- %s is not the address of a local value", r.D.D(ps.Addr), r.D.D(ps.Val)))
 			return
 		}
-		eachInstr(fn, func(in ssa.Instruction) {
-			if st, ok := in.(*ssa.Store); ok && st != ps && baseAlloc(st.Addr) == a {
-				if _, isLoad := st.Addr.(*ssa.UnOp); !isLoad {
-					add(st)
-				}
-			}
-		})
 	}
 	if len(content) < min {
 		r.Fail(key, r.FnPos(fn), fmt.Sprintf("expected >= %d stores to %s in %s, found %d", min, target, FuncName(fn), len(content)))
@@ -971,7 +994,7 @@ func (r *Run) FailEdgeWalk(fn *ssa.Function, key string, sp EdgeSpec, walk func(
 	flipped := map[string]bool{}
 	if sp.Atom.OrdA != "" {
 		for _, k := range bound {
-			if ci := found[k]; !(glob(sp.Atom.OrdA, ci.A) && glob(sp.Atom.OrdB, ci.B)) {
+			if ci := found[k]; !(anyGlob(sp.Atom.OrdA, ci.A) && anyGlob(sp.Atom.OrdB, ci.B)) {
 				flipped[k] = true
 			}
 		}
@@ -1239,4 +1262,172 @@ func (r *Run) substParams(term string, call ssa.CallInstruction) string {
 
 func isIdentByte(c byte) bool {
 	return c == '_' || c >= '0' && c <= '9' || c >= 'a' && c <= 'z' || c >= 'A' && c <= 'Z'
+}
+
+// wPhiLeaves returns the non-φ values a value can be (the inputs of the φ-nodes it passes
+// through); ok=false when the φ-nest is deeper than expected.
+func wPhiLeaves(v ssa.Value) (out []ssa.Value, ok bool) {
+	ok = true
+	seen := map[ssa.Value]bool{}
+	var visit func(v ssa.Value, depth int)
+	visit = func(v ssa.Value, depth int) {
+		if seen[v] {
+			return
+		}
+		seen[v] = true
+		if ph, isPhi := v.(*ssa.Phi); isPhi {
+			if depth > 6 {
+				ok = false
+				return
+			}
+			for _, e := range ph.Edges {
+				visit(e, depth+1)
+			}
+			return
+		}
+		out = append(out, v)
+	}
+	visit(v, 0)
+	return
+}
+
+// nilUnder decides "x == nil" (T = nil, F = not nil) for a pointer-like value under σ, seeing
+// through what a refactoring puts between a presence decision and its test:
+//   - a φ-node is evaluated over the edge taken (φ of the current block) or over the incoming edges
+//     an execution consistent with σ can take (see WalkRefined);
+//   - a load of a field of a local struct is the value of the one store to that field that an
+//     execution consistent with σ performs before the load (localFieldStore).
+//
+// A valuation that fixes the atom of x itself wins.
+func (r *Run) nilUnder(x ssa.Value, s Sigma, blk *ssa.BasicBlock, pred int, from *ssa.BasicBlock, prev *Reach, depth int) Tri {
+	if depth > 8 {
+		return U
+	}
+	if val, ok := s["nil?"+r.D.D(x)]; ok {
+		if val == "nil" {
+			return T
+		}
+		return F
+	}
+	if isNilConst(x) {
+		return T
+	}
+	if neverNil(x) {
+		return F
+	}
+	switch x := x.(type) {
+	case *ssa.Phi:
+		pb := x.Block()
+		if pb == blk && pred >= 0 && pred < len(x.Edges) {
+			return r.nilUnder(x.Edges[pred], s, pb.Preds[pred], -1, from, prev, depth+1)
+		}
+		if !(prev != nil && pb != from && from.Dominates(pb) && prev.Blocks[pb]) {
+			return U
+		}
+		res, n := U, 0
+		for i, e := range x.Edges {
+			if !prev.Edges[[2]int{pb.Preds[i].Index, pb.Index}] {
+				continue
+			}
+			t := r.nilUnder(e, s, pb.Preds[i], -1, from, prev, depth+1)
+			if t == U || n > 0 && t != res {
+				return U
+			}
+			res = t
+			n++
+		}
+		return res
+	case *ssa.UnOp:
+		if x.Op == token.MUL && prev != nil && from == x.Parent().Blocks[0] {
+			if st := localFieldStore(x, prev); st != nil {
+				return r.nilUnder(st.Val, s, st.Block(), -1, from, prev, depth+1)
+			}
+		}
+	}
+	return U
+}
+
+// localFieldStore: load reads field f of a struct held in a local allocation that is accessed
+// only field by field (and possibly returned by address at the end).  Returns the one store to f
+// that every execution staying inside reach performs before the load, after any other write to
+// the field it performs (nil when there is no such store): the store's block dominates the load,
+// every other reachable writer dominates that store, and none of them sits in a loop.
+func localFieldStore(load *ssa.UnOp, reach *Reach) *ssa.Store {
+	fa, ok := load.X.(*ssa.FieldAddr)
+	if !ok {
+		return nil
+	}
+	a, ok := fa.X.(*ssa.Alloc)
+	if !ok || a.Referrers() == nil {
+		return nil
+	}
+	before := func(x, y ssa.Instruction) bool { // x executes before y whenever y executes
+		if x.Block() != y.Block() {
+			return x.Block().Dominates(y.Block())
+		}
+		for _, in := range x.Block().Instrs {
+			if in == x {
+				return true
+			}
+			if in == y {
+				return false
+			}
+		}
+		return false
+	}
+	var writers []*ssa.Store
+	for _, ref := range *a.Referrers() {
+		switch x := ref.(type) {
+		case *ssa.FieldAddr:
+			if x.Referrers() == nil {
+				return nil
+			}
+			for _, ref2 := range *x.Referrers() {
+				switch y := ref2.(type) {
+				case *ssa.UnOp, *ssa.DebugRef:
+				case *ssa.Store:
+					if y.Addr != ssa.Value(x) {
+						return nil // the field's address is stored somewhere
+					}
+					if x.Field == fa.Field {
+						writers = append(writers, y)
+					}
+				default:
+					if x.Field == fa.Field {
+						return nil
+					}
+					// another field's address is handed on (e.g. appended to): cannot reach field f
+					if _, isCall := y.(ssa.CallInstruction); isCall {
+						return nil
+					}
+				}
+			}
+		case *ssa.Store:
+			if x.Addr != ssa.Value(a) {
+				return nil
+			}
+			writers = append(writers, x)
+		case *ssa.UnOp, *ssa.DebugRef, *ssa.Return:
+		default:
+			return nil
+		}
+	}
+	var chosen *ssa.Store
+	for _, w := range writers {
+		if !reach.Blocks[w.Block()] {
+			continue
+		}
+		if _, whole := w.Addr.(*ssa.Alloc); !whole && before(w, load) && (chosen == nil || before(chosen, w)) {
+			chosen = w
+		}
+	}
+	if chosen == nil || loopHeaderOf(chosen.Block()) != nil || loopHeaderOf(load.Block()) != nil {
+		return nil
+	}
+	for _, w := range writers {
+		if w != chosen && reach.Blocks[w.Block()] && !before(w, chosen) {
+			return nil
+		}
+	}
+	return chosen
 }
